@@ -23,7 +23,7 @@ export VERIF_TIER=$TIER VERIF_SEED=${VERIF_SEED:-1}
 H=/verif/harness
 OUT=/verif/.run/$ID.$TIER.$$
 mkdir -p "$OUT" /verif/evidence
-trap 'rm -rf "$OUT"' EXIT
+trap '[ -n "${VERIF_KEEP:-}" ] && echo "kept $OUT" || rm -rf "$OUT"' EXIT
 
 # per-property plan: package, race phases.  "norace" = only plain build,
 # "race" = whole check under -race, "both" = plain main phase + a smaller race phase.
@@ -32,8 +32,10 @@ mode=norace
 case "$ID" in
   C06|C07|C19|C28|C29|C34) mode=race ;;
   C01|C02|C04|C05|C16|C25) mode=both ;;
-  C11|C12) pkg=snapfs ;;
 esac
+tags=verif
+snapfs=0
+case "$ID" in C11|C12) snapfs=1; tags=verif,snapfs ;; esac
 timeout_s=1500; [ "$TIER" = thorough ] && timeout_s=5400
 
 REPO=${VERIF_REPO:-/repo}
@@ -44,9 +46,9 @@ cat "$H/go.sum.base" "$REPO/go.sum" 2>/dev/null | sort -u > "$OUT/go.sum"
 if [ "$REPO" != /repo ]; then export VERIF_EVIDENCE=${VERIF_EVIDENCE:-$OUT/evidence.json}; fi
 
 overlay=()
-if [ "$pkg" = snapfs ]; then
+if [ $snapfs = 1 ]; then
   # generated file-operation overlay for serf/snapshot.go (DESIGN 3.6)
-  if ! (cd /verif/tools/fsshim && go run . -repo "$REPO" -out "$OUT/overlay") >"$OUT/fsshim.log" 2>&1; then
+  if ! (cd /verif/tools/fsshim && go build -o "$OUT/fsshim" . && "$OUT/fsshim" -repo "$REPO" -out "$OUT/overlay") >"$OUT/fsshim.log" 2>&1; then
     cat "$OUT/fsshim.log"
     echo "INCONCLUSIVE property=$ID reason=fsshim could not rewrite snapshot.go"
     exit 3
@@ -62,7 +64,7 @@ run_phase() { # $1 = phase name, $2.. = extra go test flags
   # broken monitor of another property cannot take this check down
   local lid; lid=$(echo "$ID" | tr 'A-Z' 'a-z')
   local files; files=$(cd "$H/$pkg" && ls *.go | grep -v -E '^c[0-9]+_test\.go$' | sed "s#^#./$pkg/#" | tr '\n' ' ')
-  (cd "$H" && timeout -s QUIT $((timeout_s+60)) go test -modfile="$OUT/go.mod" -tags verif "${overlay[@]}" "$@" -count=1 -timeout ${timeout_s}s \
+  (cd "$H" && timeout -s QUIT $((timeout_s+60)) go test -modfile="$OUT/go.mod" -tags $tags "${overlay[@]}" "$@" -count=1 -timeout ${timeout_s}s \
       -run "^Test${ID}\$" $files ./$pkg/${lid}_test.go ) >"$OUT/log.$phase" 2>&1
   local rc=$?
   echo $rc > "$OUT/rc.$phase"
